@@ -214,6 +214,16 @@ def v_docs():
                 yield src, kind, exp
 
 
+def v_variants(src, exp):
+    """the same family with a NUL in every body line and CRLF / CR line endings: content is that of the
+    normalised input (U+FFFD, LF)"""
+    yield src, exp
+    s2, e2 = src.replace("a", "\x00a").replace("b", "b\x00"), exp.replace("a", "\ufffda").replace("b", "b\ufffd")
+    yield s2, e2
+    yield s2.replace("\n", "\r\n"), e2
+    yield src.replace("\n", "\r"), exp
+
+
 def v_case(md, src, kind, exp, acc):
     toks = acc.call(md.parse, src)
     if toks is CRASH:
@@ -463,6 +473,8 @@ def shards(tier):
     for f in ("[", "[a", "![", "[`"):
         sh.append(("bt2", f, 7 if th else 6))
     sh += I.block_shards(tier, CFGS, contexts=S.CONTEXTS if th else S.CONTEXTS[:4])
+    for f in S.SEP_LEAVES:
+        sh.append(("sep", f))
     sh.append(("ol",))
     return sh
 
@@ -523,11 +535,12 @@ def run_shard(sh, acc):
     elif kind == "vfam":
         for c in CFGS:
             md = C.build(c)
-            for src, k, exp in v_docs():
-                acc.case()
-                r = v_case(md, src, k, exp, acc)
-                if r:
-                    acc.violation(kind, f"{k} in a container differs from its source lines", {"cfg": c, "src": src, "kind": k, "exp": exp}, r)
+            for src0, k, exp0 in v_docs():
+                for src, exp in v_variants(src0, exp0):
+                    acc.case()
+                    r = v_case(md, src, k, exp, acc)
+                    if r:
+                        acc.violation(kind, f"{k} in a container differs from its source lines", {"cfg": c, "src": src, "kind": k, "exp": exp}, r)
         acc.sample(kind, {"src": "> text\n>\n> ```\n> a\n> b\n> ```\n", "kind": "fence", "exp": "a\nb\n"}, 1)
     elif kind == "colpre":
         _, pi, depth = sh
